@@ -54,6 +54,12 @@ pub struct Seed {
 }
 
 impl Seed {
+    /// Format name used in violation keys: the base format of the asset ("jpeg-rst-many" -> "jpeg"), because a defect
+    /// of a format's handler shows on every structural variant of that format.
+    pub fn keyfmt(&self) -> &'static str {
+        self.fmt.split('-').next().unwrap_or(self.fmt)
+    }
+
     pub fn observe(&self, m: &[u8]) -> Obs {
         match &self.detached {
             None => tamper::observe(&self.spec, m),
@@ -176,13 +182,26 @@ pub fn finish_seed(id: String, a: &Asset, signed: Vec<u8>, detached: Option<Vec<
 
 pub fn build_seeds(thorough: bool) -> Vec<Seed> {
     let s = signer();
-    let list = if thorough { assets::all() } else { assets::base() };
+    // quick: one asset per format, plus the structural-repetition variants (restart-marker wrap-around, many marker
+    // kinds, several IDAT chunks, several GIF frames / sub-blocks) under the box hash, whose per-box maps they exercise;
+    // the data-hashed twin (positional hash, insensitive to structure) only for jpeg-rst-many. thorough: every variant x every binding.
+    let mut list: Vec<(Asset, bool)> = if thorough { assets::all().into_iter().map(|a| (a, true)).collect() } else { assets::base().into_iter().map(|a| (a, true)).collect() };
+    if !thorough {
+        list.push((assets::by_name("jpeg-rst-many"), true));
+    }
+    for a in assets::structural() {
+        if thorough || a.name != "wav-list" {
+            list.push((a, thorough));
+        }
+    }
     let mut seeds = vec![];
-    for a in &list {
+    for (a, with_default) in &list {
         let bmff = tamper::family(a.mime) == "bmff";
         // default binding: data hash, or BMFF hash for BMFF
         let signed = sdk::sign_simple(s.as_ref(), a.mime, &a.data, &[]);
-        seeds.push(finish_seed(format!("{}/{}", a.name, if bmff { "bmff" } else { "data" }), a, signed.clone(), None, false));
+        if *with_default {
+            seeds.push(finish_seed(format!("{}/{}", a.name, if bmff { "bmff" } else { "data" }), a, signed.clone(), None, false));
+        }
         if bmff {
             let m = sdk::sign_simple(s.as_ref(), a.mime, &a.data, &[MERKLE]);
             seeds.push(finish_seed(format!("{}/bmff-merkle", a.name), a, m, None, false));
@@ -322,8 +341,17 @@ pub fn where_of(seed: &Seed, e: &Edit, m: &[u8]) -> String {
     match &seed.units {
         Some(u) => {
             let last_end = u.iter().rev().find(|x| x.name != "trailing").map(|x| x.end).unwrap_or(seed.signed.len());
+            // an inserted byte gives the same mutant at every position of the run of equal bytes it joins: use the leftmost
+            let mut ins = e.start;
+            if e.start == e.end && e.rep.len() == 1 {
+                while ins > 0 && seed.signed[ins - 1] == e.rep[0] {
+                    ins -= 1;
+                }
+            }
             if p >= last_end {
                 "after-last-unit".into()
+            } else if e.start == e.end && u.iter().any(|x| x.start == ins) {
+                format!("between-units:before-{}", tamper::unit_at(u, ins))
             } else if e.start == e.end && u.iter().any(|x| x.start == e.start) {
                 format!("between-units:before-{}", tamper::unit_at(u, e.start))
             } else {
@@ -364,7 +392,7 @@ pub fn judge(run: &Run, seed: &Seed, e: &Edit, verbose: bool) -> String {
     match &obs {
         Obs::Panic(p) => {
             run.violation(
-                format!("panic {bname} {} {}", seed.fmt, tamper::panic_key(p)),
+                format!("panic {bname} {} {}", seed.keyfmt(), tamper::panic_key(p)),
                 format!("reader panicked on a {} mutant of {} at {}: {p}", e.kind, seed.id, where_of(seed, e, &m)),
                 case,
             );
@@ -382,7 +410,7 @@ pub fn judge(run: &Run, seed: &Seed, e: &Edit, verbose: bool) -> String {
             let conf = tamper::confined(&seed.binding, &seed.signed, &seed.excl, &seed.prot, &m);
             if !conf {
                 run.violation(
-                    format!("undetected {bname} {} at={} edit={}", seed.fmt, where_of(seed, e, &m), e.kind),
+                    format!("undetected {bname} {} at={} edit={}", seed.keyfmt(), where_of(seed, e, &m), e.kind),
                     format!(
                         "seed {}: `{}` (replaces [{}..{}) by {} byte(s)) changes bytes the signed {bname} binding does not declare excluded (declared excluded in the signed file: {:?}), yet the reader reports {state}",
                         seed.id, e.sym, e.start, e.end, e.rep.len(), seed.excl
@@ -396,7 +424,7 @@ pub fn judge(run: &Run, seed: &Seed, e: &Edit, verbose: bool) -> String {
                     let _ = std::fs::write(kit::ev::out_root().join("debug-canon-mutant.json"), canon);
                 }
                 run.violation(
-                    format!("report-changed {bname} {} at={} edit={}", seed.fmt, where_of(seed, e, &m), e.kind),
+                    format!("report-changed {bname} {} at={} edit={}", seed.keyfmt(), where_of(seed, e, &m), e.kind),
                     format!("seed {}: `{}` is confined to excluded bytes and reads {state}, but the reported manifest content differs from the seed's: {}", seed.id, e.sym, diff_hint(&seed.canon, canon)),
                     case,
                 );
